@@ -1,6 +1,6 @@
 """What MANIFEST.json claims.  Only what is built and green on the unchanged tree with several seeds."""
 
-HOOK_COMMITS = ["f83646d", "b42568c"]
+HOOK_COMMITS = ["f83646d", "b42568c", "b6cd9ef"]
 
 NOTES = ("Model-based verification with explicit TLA+ specifications (see DESIGN.md). Every verdict comes from behaviour of "
          "the real code rebuilt from /repo's working tree; TLC model-checks the mechanism specs, generates the histories "
